@@ -34,7 +34,7 @@ MIN_NONTRIVIAL = 200
 REQUIRED_COUNTERS = ["renders_compared", "expected_compile_errors_seen", "module_reloads", "fresh_process_reloads", "output_encodings_compared", "strict_encode_errors_matched"]
 
 CODECS = ["ascii", "utf-8", "latin-1", "cp1251", "cp1252", "koi8-r", "shift_jis", "euc-jp", "gb2312", "iso-8859-15", "utf-8-bom"]
-DECLS = ["comment", "input_encoding", "both", "conflict", "none", "bom_conflict", "ascii_lie"]
+DECLS = ["comment", "input_encoding", "both", "conflict", "none", "bom_conflict", "ascii_lie", "corrupt", "corrupt_comment"]
 OUTPUTS = [None, ("same", "strict"), ("ascii", "replace"), ("ascii", "xmlcharrefreplace"), ("ascii", "htmlentityreplace"), ("latin-1", "strict"),
            # codecs whose encoder keeps state across the document (a leading BOM, shift sequences): the whole output
            # is one encode() call, not one per written piece
@@ -164,6 +164,22 @@ def build(codec, decl, body):
         if not nonascii or real == "ascii" or bom:
             return None
         return ("## -*- coding: ascii -*-\n" + body).encode(real), {}, ("error",)
+    if decl in ("corrupt", "corrupt_comment"):
+        # a byte sequence that the declared codec cannot decode, in the middle of the text
+        k = len(body) // 2
+        for bad in (b"\xff", b"\x81", b"\xe6\x97", b"\x80"):
+            data = body[:k].encode(real) + bad + body[k:].encode(real)
+            try:
+                data.decode(real)
+            except UnicodeDecodeError:
+                break
+        else:
+            return None  # every byte string decodes in this codec
+        if decl == "corrupt_comment":
+            return bom + comment.encode("ascii") + data, {}, ("error",)
+        if bom:
+            return bom + data, {}, ("error",)
+        return data, {"input_encoding": real}, ("error",)
     raise ValueError(decl)
 
 
